@@ -1190,7 +1190,34 @@ impl C09Engine {
             }
             Attack::Source { entry, kind, n, m } => {
                 cx.stats.bump("fault.datalog_source");
-                let base = match kind % 7 {
+                let base = match kind % 8 {
+                    // a `trusting <algorithm>/<hex>` clause whose key has the right size but is
+                    // not a point of the curve (n selects the algorithm and the candidate)
+                    7 => {
+                        let (alg_name, alg, len) = if n % 2 == 0 {
+                            ("ed25519", biscuit_auth::builder::Algorithm::Ed25519, 32usize)
+                        } else {
+                            ("secp256r1", biscuit_auth::builder::Algorithm::Secp256r1, 33usize)
+                        };
+                        let mut bad: Option<Vec<u8>> = None;
+                        for c in 0..=255u8 {
+                            let mut k = vec![c.wrapping_mul(37).wrapping_add(*n as u8); len];
+                            k[0] = if len == 33 { 2 } else { c };
+                            if PublicKey::from_bytes(&k, alg).is_err() {
+                                bad = Some(k);
+                                break;
+                            }
+                        }
+                        let key = format!("{alg_name}/{}", hex::encode(bad.unwrap_or_else(|| vec![0xff; len])));
+                        match entry % 6 {
+                            0 => format!("v(1); check if v($x) trusting {key};"),
+                            1 => format!("v(1); allow if v($x) trusting {key};"),
+                            2 => format!("f(1) trusting {key}"),
+                            3 => format!("a($x) <- b($x) trusting {key}"),
+                            4 => format!("check if b($x) trusting {key}"),
+                            _ => format!("allow if b($x) trusting {key}"),
+                        }
+                    }
                     0 => run.slots[0].ghost[0].ast.source(),
                     1 => run.scn.verifiers[0].authorizer.source(),
                     2 => format!("check if {}1{};", "(".repeat(*n), ")".repeat(*n)),
@@ -1226,7 +1253,7 @@ impl C09Engine {
                     }
                 };
                 let text = String::from_utf8_lossy(&apply_bytes(m, base.as_bytes())).to_string();
-                let text = if kind % 7 >= 2 && matches!(m, ByteMut::Empty) { base } else { text };
+                let text = if kind % 8 >= 2 && matches!(m, ByteMut::Empty) { base } else { text };
                 let kp = KeySpec { alg: Alg::Ed25519, seed: 77 }.keypair();
                 let next = KeySpec { alg: Alg::Ed25519, seed: 78 }.keypair();
                 // parameters given a value (every name the texts above use) or left unset
@@ -1235,7 +1262,7 @@ impl C09Engine {
                 // for the parameter texts, n also selects how the parameters are given values:
                 // not at all, an integer, a boolean
                 let mode = (n / 6) % 3;
-                let bound = kind % 7 == 6 && mode > 0;
+                let bound = kind % 8 == 6 && mode > 0;
                 if bound {
                     // an integer fits everywhere; a boolean cannot be a map key
                     let value = if mode == 2 { biscuit_auth::builder::Term::Bool(true) } else { biscuit_auth::builder::Term::Integer(2) };
@@ -1391,9 +1418,9 @@ impl Engine for C09Engine {
                 Attack::Source { entry, kind, n, m } => format!(
                     "Source(entry={},shape={},n={},mutation={})",
                     ["BlockBuilder::code", "AuthorizerBuilder::code", "Fact::try_from", "Rule::try_from", "Check::try_from", "Policy::try_from"][(*entry % 6) as usize],
-                    ["block-source", "authorizer-source", "nested-parentheses", "negation-chain", "addition-chain", "nested-arrays", "parameters"][(*kind % 7) as usize],
+                    ["block-source", "authorizer-source", "nested-parentheses", "negation-chain", "addition-chain", "nested-arrays", "parameters", "key-off-curve"][(*kind % 8) as usize],
                     n,
-                    if matches!(m, ByteMut::Empty) && kind % 7 >= 2 { "none".to_string() } else { format!("{m:?}") }
+                    if matches!(m, ByteMut::Empty) && kind % 8 >= 2 { "none".to_string() } else { format!("{m:?}") }
                 ),
                 other => {
                     let s = format!("{other:?}");
@@ -1429,11 +1456,11 @@ impl Engine for C09Engine {
                 9 => Attack::PoliciesBytes { m: gen_bytemut(&mut rng) },
                 10 => Attack::KeyMaterial { form: rng.below(8) as u8, alg: if rng.chance(1, 2) { Alg::P256 } else { Alg::Ed25519 }, m: gen_bytemut(&mut rng) },
                 11 => {
-                    let kind = rng.below(7) as u8;
+                    let kind = rng.below(8) as u8;
                     Attack::Source {
                         entry: rng.below(6) as u8,
                         kind,
-                        n: if kind == 6 { rng.below(18) } else { *rng.pick(&[1usize, 10, 100, 1000, 20_000]) },
+                        n: if kind >= 6 { rng.below(18) } else { *rng.pick(&[1usize, 10, 100, 1000, 20_000]) },
                         m: if rng.chance(1, 2) { ByteMut::Empty } else { gen_bytemut(&mut rng) },
                     }
                 }
